@@ -261,6 +261,15 @@ def numbers_from_words(words, path):
 
 def int_from_number(number, words, path):
     if isinstance(number, int):
+        try:
+            "%d" % number
+        except ValueError as e:
+            # CPython refuses to write integers beyond sys.get_int_max_str_digits():
+            # such a value could be neither reported nor formatted
+            raise RuntimeError(
+                'Error interpreting %s="%s" as an integer expression: %s%s'
+                % (path, str_from_words(words), e, words[0].where_str())
+            )
         return number
     if isinstance(number, float) and math.isfinite(number) and round(number) == number:
         return int(number)
